@@ -10,5 +10,7 @@ CONSTANTS
   MultiEvery = 4
   MultiPlans = 1
   OptEvery = 4
+  ConcEvery = 24
+  Conc = 8
 INVARIANT Emit
 CHECK_DEADLOCK FALSE
